@@ -312,14 +312,22 @@ const HEAVY_MIN: u64 = 48 << 20; // a reader that trusts such a length zeroes th
 const HEAVY_MAX: u64 = 3 << 30; // up to here it is merely slow; beyond, up to ABORTS_FROM, it could exhaust the box
 const ABORTS_FROM: u64 = 1 << 44; // no allocator grants this: immediate allocation failure
 static HEAVY_LEFT: std::sync::atomic::AtomicI64 = std::sync::atomic::AtomicI64::new(0);
+static ABORT_LEFT: std::sync::atomic::AtomicI64 = std::sync::atomic::AtomicI64::new(0); // each one costs a process restart
 
 /// true: run it; false: skip (too slow / too dangerous for this tier)
 fn admit(declared: Option<u64>, rec: &mut Value) -> bool {
     let Some(d) = declared else { return true };
     rec["overrun"] = json!(1);
     rec["declared"] = json!(d);
-    if d < HEAVY_MIN || d >= ABORTS_FROM {
+    if d < HEAVY_MIN {
         return true;
+    }
+    if d >= ABORTS_FROM {
+        if ABORT_LEFT.fetch_sub(1, std::sync::atomic::Ordering::SeqCst) > 0 {
+            return true;
+        }
+        rec["skipped_heavy"] = json!(2);
+        return false;
     }
     if d <= HEAVY_MAX && HEAVY_LEFT.fetch_sub(1, std::sync::atomic::Ordering::SeqCst) > 0 {
         return true;
@@ -413,6 +421,8 @@ enum Fault {
     TruncCls(String, usize),
     TruncAt(usize),
     Flip(usize, u8),
+    /// one bit of the first record batch's bodyLength (a 64-bit length field of the message header): +2^48 bytes
+    FlipBodyLen,
     Garbage(usize),
     DigestStale,
     DigestTamper,
@@ -433,6 +443,7 @@ fn fault_of(v: &Value) -> Fault {
             None => Fault::TruncCls(v["cls"].as_str().unwrap_or("inmsg").to_string(), sel),
         },
         "flip" => Fault::Flip(v["off"].as_u64().unwrap_or(0) as usize, v["xor"].as_u64().unwrap_or(255) as u8),
+        "flip_bodylen" => Fault::FlipBodyLen,
         "garbage" => Fault::Garbage(sel),
         "digest" => {
             if v["variant"].as_str() == Some("tamper") {
@@ -456,6 +467,8 @@ struct FaultTransport {
     log: Mutex<Vec<Value>>,
     /// appended to before a faulted answer is handed to the coordinator: survives a process abort
     side: Option<PathBuf>,
+    /// corrupted payloads handed out, re-decoded AFTER the coordinator accepted them (row count of what it merged)
+    flipped: Mutex<Vec<(String, usize, Vec<u8>)>>,
 }
 
 const GARBAGE_VARIANTS: usize = 6;
@@ -588,6 +601,29 @@ impl FaultTransport {
                 if !admit(declared_overrun(&b), rec) {
                     return Err(exec("harness: skipped".into()));
                 }
+                self.flipped.lock().unwrap().push((req.table.clone(), req.shard_index, b.clone()));
+                Ok((b, rows, 0.0))
+            }
+            Fault::FlipBodyLen => {
+                let m = lay.msgs.iter().find(|m| m.kind == "batch").ok_or_else(|| exec("harness: no record batch in the payload".into()))?;
+                let mlen = i32::from_le_bytes(bytes[m.start + 4..m.start + 8].try_into().unwrap()) as usize;
+                let body = (m.end - m.start - 8 - mlen) as i64;
+                let meta = &bytes[m.start + 8..m.start + 8 + mlen];
+                let pat = body.to_le_bytes();
+                let hits: Vec<usize> = (0..meta.len().saturating_sub(7)).filter(|&p| meta[p..p + 8] == pat).collect();
+                if hits.len() != 1 {
+                    rec["unresolved"] = json!(format!("bodyLength occurs {} times in the header", hits.len()));
+                    return Ok((bytes, rows, 0.0));
+                }
+                let off = m.start + 8 + hits[0] + 6;
+                let mut b = bytes.clone();
+                b[off] ^= 0x01;
+                rec["off"] = json!(off);
+                rec["cls"] = json!("bodylen");
+                if !admit(declared_overrun(&b), rec) {
+                    return Err(exec("harness: skipped".into()));
+                }
+                self.flipped.lock().unwrap().push((req.table.clone(), req.shard_index, b.clone()));
                 Ok((b, rows, 0.0))
             }
             Fault::Garbage(v) => {
@@ -675,6 +711,7 @@ struct Fixture {
     stale: Arc<ExecutionContext>,
     init_ok: ExecutionContext,
     full: HashMap<String, Vec<String>>,
+    topo: Mutex<HashMap<(String, usize), Value>>,
     rt: tokio::runtime::Runtime,
 }
 
@@ -695,7 +732,7 @@ fn fixture(work: &Path) -> Fixture {
         let r = rt.block_on(good.sql(sql)).unwrap_or_else(|e| panic!("single-node answer of {k}: {e}"));
         full.insert(k.to_string(), bag_of(&r.batches));
     }
-    Fixture { init_dir, good, stale, init_ok, full, rt }
+    Fixture { init_dir, good, stale, init_ok, full, topo: Mutex::new(HashMap::new()), rt }
 }
 
 fn participants(n: usize, me: i64) -> Vec<Participant> {
@@ -728,8 +765,12 @@ fn run_case(fx: &Fixture, c: &Value, side: Option<&Path>) -> Value {
     let n = c["n"].as_u64().unwrap() as usize;
     let me = c["self"].as_i64().unwrap();
     let mut rec = c.clone();
-    let topo = match topology(&fx.init_ok, &sql, n) {
-        Ok(t) => t,
+    let cached = fx.topo.lock().unwrap().get(&(key.to_string(), n)).cloned();
+    let topo = match cached.map(Ok).unwrap_or_else(|| topology(&fx.init_ok, &sql, n)) {
+        Ok(t) => {
+            fx.topo.lock().unwrap().insert((key.to_string(), n), t.clone());
+            t
+        }
         Err(e) => {
             rec["outcome"] = json!("setup_error");
             rec["err"] = json!(e);
@@ -751,7 +792,7 @@ fn run_case(fx: &Fixture, c: &Value, side: Option<&Path>) -> Value {
         rank.insert((o[0].as_str().unwrap().to_string(), o[1].as_u64().unwrap() as usize), k);
     }
     let (turn, _keep) = tokio::sync::watch::channel(0usize);
-    let tr = FaultTransport { good: fx.good.clone(), stale: fx.stale.clone(), plan, rank, turn, log: Mutex::new(Vec::new()), side: side.map(|p| p.to_path_buf()) };
+    let tr = FaultTransport { good: fx.good.clone(), stale: fx.stale.clone(), plan, rank, turn, log: Mutex::new(Vec::new()), side: side.map(|p| p.to_path_buf()), flipped: Mutex::new(Vec::new()) };
     let local = c["local"].as_str().unwrap_or("ok");
     let bad;
     let ictx: &ExecutionContext = if local == "err" {
@@ -794,6 +835,17 @@ fn run_case(fx: &Fixture, c: &Value, side: Option<&Path>) -> Value {
         }
     }
     let mut sends = tr.log.lock().unwrap().clone();
+    if matches!(rec["outcome"].as_str(), Some("full") | Some("partial") | Some("wrong")) {
+        // the coordinator decoded these bytes without dying: how many rows did it merge from them?
+        for (t, i, b) in tr.flipped.lock().unwrap().iter() {
+            let n = catch(std::panic::AssertUnwindSafe(|| decode_ipc(b).map(|bs| bs.iter().map(|x| x.num_rows()).sum::<usize>()).ok())).ok().flatten();
+            for s in sends.iter_mut() {
+                if s["t"].as_str() == Some(t.as_str()) && s["i"].as_u64() == Some(*i as u64) {
+                    s["decoded_rows"] = json!(n);
+                }
+            }
+        }
+    }
     if sends.iter().any(|s| s.get("skipped_heavy").is_some()) {
         rec["outcome"] = json!("skipped");
     }
@@ -831,6 +883,7 @@ pub fn replay(a: &[String]) -> i32 {
     let mut out = Sink::create(&a[1]);
     let fx = fixture(Path::new(&a[2]));
     HEAVY_LEFT.store(a.get(3).and_then(|s| s.parse().ok()).unwrap_or(0), std::sync::atomic::Ordering::SeqCst);
+    ABORT_LEFT.store(a.get(4).and_then(|s| s.parse().ok()).unwrap_or(0), std::sync::atomic::Ordering::SeqCst);
     for c in cases {
         out.begin(&c);
         let side = PathBuf::from(format!("{}.cur.sends", &a[1]));
@@ -883,6 +936,7 @@ struct ProxyState {
     log: Mutex<Vec<Value>>,
     /// faulted sends are also appended here before the bytes leave: survives a process abort
     side: PathBuf,
+    flipped: Mutex<Vec<(String, usize, Vec<u8>, usize)>>, // table, peer, corrupted body, rows the worker declared
 }
 
 async fn read_http_request(s: &mut tokio::net::TcpStream) -> Option<(Vec<u8>, usize)> {
@@ -1021,6 +1075,11 @@ async fn proxy_conn(mut conn: tokio::net::TcpStream, upstream: String, peer: usi
             if !admit(declared_overrun(&outb[head_len..]), &mut rec) {
                 outb = resp.clone();
                 rec["applied"] = json!("skipped");
+            } else {
+                let declared_rows = String::from_utf8_lossy(&resp[..head_len]).to_ascii_lowercase().lines()
+                    .find_map(|l| l.strip_prefix("x-qe-rows:").and_then(|v| v.trim().parse::<usize>().ok())).unwrap_or(0);
+                rec["rows"] = json!(declared_rows);
+                st.flipped.lock().unwrap().push((rec["t"].as_str().unwrap_or("").to_string(), peer, outb[head_len..].to_vec(), declared_rows));
             }
         }
         _ => {
@@ -1094,6 +1153,7 @@ pub fn http(a: &[String]) -> i32 {
     let cases = read_ndjson(&a[0]);
     let mut out = Sink::create(&a[1]);
     let work = PathBuf::from(&a[2]);
+    ABORT_LEFT.store(a.get(4).and_then(|s| s.parse().ok()).unwrap_or(0), std::sync::atomic::Ordering::SeqCst);
     let _ = std::fs::remove_dir_all(&work);
     let dirs: Vec<PathBuf> = (0..3).map(|i| work.join(format!("node{i}"))).collect();
     for d in &dirs {
@@ -1104,7 +1164,7 @@ pub fn http(a: &[String]) -> i32 {
         let na = query_engine::distributed::spawn(opts(0), loader(dirs[0].clone())).await.expect("bind A");
         let nb = query_engine::distributed::spawn(opts(1), loader(dirs[1].clone())).await.expect("bind B");
         let nc = query_engine::distributed::spawn(opts(2), loader(dirs[2].clone())).await.expect("bind C");
-        let st = Arc::new(ProxyState { plan: Mutex::new(HashMap::new()), log: Mutex::new(Vec::new()), side: PathBuf::from(format!("{}.cur.sends", &a[1])) });
+        let st = Arc::new(ProxyState { plan: Mutex::new(HashMap::new()), log: Mutex::new(Vec::new()), side: PathBuf::from(format!("{}.cur.sends", &a[1])), flipped: Mutex::new(Vec::new()) });
         let mut paddr = Vec::new();
         for (k, up) in [nb.address().to_string(), nc.address().to_string()].into_iter().enumerate() {
             let l = tokio::net::TcpListener::bind("127.0.0.1:0").await.expect("bind proxy");
@@ -1166,6 +1226,7 @@ pub fn http(a: &[String]) -> i32 {
                         p.insert(("*layout*".to_string(), 0), HFault::None);
                     }
                     st.log.lock().unwrap().clear();
+                    st.flipped.lock().unwrap().clear();
                 }
                 let mut rec = c.clone();
                 let r = http_client::post_text(&a_addr, "/sql?distributed=1&format=csv", &sql, t60).await;
@@ -1192,6 +1253,16 @@ pub fn http(a: &[String]) -> i32 {
                     }
                 }
                 let mut log = st.log.lock().unwrap().clone();
+                if rec["status"].as_u64() == Some(200) {
+                    for (t, peer, b, _) in st.flipped.lock().unwrap().iter() {
+                        let n = catch(std::panic::AssertUnwindSafe(|| decode_ipc(b).map(|bs| bs.iter().map(|x| x.num_rows()).sum::<usize>()).ok())).ok().flatten();
+                        for s in log.iter_mut() {
+                            if s["t"].as_str() == Some(t.as_str()) && s["peer"].as_u64() == Some(*peer as u64) {
+                                s["decoded_rows"] = json!(n);
+                            }
+                        }
+                    }
+                }
                 log.sort_by_key(|s| (s["t"].as_str().unwrap_or("").to_string(), s["peer"].as_u64().unwrap_or(0)));
                 rec["sends"] = json!(log);
                 out.put(&rec);
